@@ -108,8 +108,16 @@ func (nr *netRun) checkC09(x *xfer) {
 				// announcement of the entry is an upper bound of when the ending event was applied)
 				cause := ""
 				if entryStep >= 0 {
+					// when the cleanup ran: the library's (first) CleanupChannel call on the transport in this life (the
+					// announcement of the entry into the cleanup status can lag behind it)
+					cleanupStep := entryStep
+					for _, tc := range n.TpCalls {
+						if tc.Kind == "cleanup" && tc.ChID == x.chid && tc.Life == n.life && tc.Step < cleanupStep {
+							cleanupStep = tc.Step
+						}
+					}
 					for _, g := range n.AllGSCalls {
-						if g.Life != n.life || g.Step <= entryStep {
+						if g.Life != n.life || g.Step <= cleanupStep {
 							continue
 						}
 						if g.Kind == "register" && g.Name == "data-transfer-"+x.chid.String() {
@@ -144,7 +152,7 @@ func (nr *netRun) checkC09(x *xfer) {
 				_, s1 := cfp.SendingChannels[x.chid]
 				_, s2 := cfp.ReceivingChannels[x.chid]
 				if s1 || s2 {
-					r.Failf("C09", "transport-not-released", n.Name+"|"+datatransfer.Statuses[last.Snap.Status]+cause, "node %s channel #%d is %s but the transport still maps graphsync requests to it", n.Name, x.idx, datatransfer.Statuses[last.Snap.Status])
+					r.Failf("C09", "transport-not-released", n.Name+"|"+datatransfer.Statuses[last.Snap.Status]+cause, "node %s channel #%d is %s but the transport still maps graphsync requests to it (entry announced at step %d)", n.Name, x.idx, datatransfer.Statuses[last.Snap.Status], entryStep)
 				}
 				if _, reg := n.GS.persist["data-transfer-"+x.chid.String()]; reg {
 					r.Failf("C09", "store-not-released", n.Name+cause, "node %s channel #%d is %s but its per-channel store is still registered with graphsync", n.Name, x.idx, datatransfer.Statuses[last.Snap.Status])
@@ -446,7 +454,8 @@ func (nr *netRun) checkC11(x *xfer) {
 		sb, okB := nr.B.State(x.chid)
 		// only when every announced pause/resume actually reached the peer (a resume issued while the requester is away
 		// is legitimately queued in the transport until the next request)
-		allDelivered := true
+		// ... and no graphsync message is still undelivered or stuck in its handler (a wedged hook is C20's business)
+		allDelivered := !nr.w.GS.Busy()
 		for _, op := range nr.ops {
 			if op.X != x || (op.Kind != "Pause" && op.Kind != "Resume") || op.Call.Err != nil || !op.Call.Returned {
 				continue
@@ -492,6 +501,9 @@ func (nr *netRun) checkC11(x *xfer) {
 						for _, g := range nr.A.AllGSCalls {
 							if g.Kind == "pause" && g.Step <= limStep && g.Err == "" {
 								pausedByA = true
+							}
+							if g.Kind == "unpause" && g.Step <= limStep && g.Err == "" {
+								pausedByA = false
 							}
 						}
 						if pausedByA {
